@@ -179,6 +179,7 @@ type srtRender struct {
 	hours1    bool
 	ownLine   bool // tags opened before the first text line / closed after the last one stand on a line of their own
 	idxMix    uint64
+	fontAttrs bool // font elements carry face and size next to the colour
 	wsBlank   bool // blank lines (between cues, at the end of the file) may hold blanks and tabs
 	sepMix    bool // each time stamp picks its own millisecond separator
 	innerFont bool // a colour-less <font size=..>/<font face=..> element inside a coloured run (closed with it)
@@ -201,7 +202,7 @@ func srtGenRender(r *fw.Rand) srtRender {
 	return srtRender{
 		eol: fw.Pick(r, []string{"\n", "\r\n", "\r"}), bom: r.P(1, 3), indexKind: fw.Pick(r, []int{0, 3, 3, 1, 2}), idxMix: r.U64(),
 		between: r.Range(1, 3), atEOF: r.Range(-1, 3), sep: fw.Pick(r, []string{",", "."}), minDigits: r.P(1, 3),
-		sepMix: r.P(1, 6), innerFont: r.P(1, 3), wsBlank: r.P(1, 4),
+		sepMix: r.P(1, 6), innerFont: r.P(1, 3), wsBlank: r.P(1, 4), fontAttrs: r.P(1, 3),
 		ownLine: r.P(1, 3), arrow: r.Intn(5), coords: r.P(1, 5), upper: r.P(1, 4), quote: r.Intn(3), tagMode: r.Intn(3), escAll: r.Bool(), hours1: r.P(1, 4),
 	}
 }
@@ -283,15 +284,27 @@ func (t srtTag) open(o srtRender) string {
 	if o.upper {
 		a = "COLOR"
 	}
-	switch o.quote {
-	case 1:
-		return "<" + n + " " + a + "='" + t.color + "'>"
-	case 2:
-		if !strings.ContainsAny(t.color, " (),") {
-			return "<" + n + " " + a + "=" + t.color + ">"
+	// other attributes of the element, before and after the colour (face and size, as DVD rips and editors write them)
+	pre, post := "", ""
+	if o.fontAttrs {
+		switch len(t.color) % 3 {
+		case 0:
+			post = ` face="Arial" size="18"`
+		case 1:
+			pre = ` size="18"`
+		default:
+			pre, post = ` face='Courier New'`, ` size=18`
 		}
 	}
-	return "<" + n + " " + a + "=\"" + t.color + "\">"
+	switch o.quote {
+	case 1:
+		return "<" + n + pre + " " + a + "='" + t.color + "'" + post + ">"
+	case 2:
+		if !strings.ContainsAny(t.color, " (),") {
+			return "<" + n + pre + " " + a + "=" + t.color + post + ">"
+		}
+	}
+	return "<" + n + pre + " " + a + "=\"" + t.color + "\"" + post + ">"
 }
 
 func (t srtTag) close(o srtRender) string {
